@@ -29,17 +29,20 @@ import wntr.sim.core as core
 import wntr.sim.hydraulics as hyd
 from wntr.sim.core import WNTRSimulator
 from wntr.network import LinkStatus
-from wntr.network.elements import Junction, Pipe, PRValve, HeadPump
+from wntr.network.elements import Junction, Pipe, PRValve, HeadPump, Pump, Valve
 from wntr.utils.ordered_set import OrderedSet
 from contracts._net import mk_node, mk_link
 
 P = ["C09"]
 ST = {"open": (LinkStatus.Open, LinkStatus.Active), "closed": (LinkStatus.Closed, LinkStatus.Active),
-      "internally_closed": (LinkStatus.Open, LinkStatus.Closed), "active_valve": (LinkStatus.Active, LinkStatus.Active)}
+      "internally_closed": (LinkStatus.Open, LinkStatus.Closed), "active_valve": (LinkStatus.Active, LinkStatus.Active),
+      "running_head_pump": (LinkStatus.Open, LinkStatus.Active), "running_power_pump": (LinkStatus.Open, LinkStatus.Active),
+      "pump_shut_by_the_simulator": (LinkStatus.Open, LinkStatus.Closed)}
+LINK_CLASS = {"active_valve": PRValve, "running_head_pump": HeadPump, "pump_shut_by_the_simulator": HeadPump}
 
 
 def _is_closed(s):
-    return s in ("closed", "internally_closed")
+    return s in ("closed", "internally_closed", "pump_shut_by_the_simulator")
 
 
 class Tracker(NativeModel):
@@ -107,7 +110,9 @@ def _init_graph_case(s_single, s_a, s_b, reverse_b):
 
         def link(name, st, a, b):
             u, i = ST[st]
-            return mk_link(cx, PRValve if st == "active_valve" else Pipe, name, a, b, _user_status=u, _internal_status=i)
+            from wntr.network.elements import PowerPump
+            cls = PowerPump if st == "running_power_pump" else LINK_CLASS.get(st, Pipe)
+            return mk_link(cx, cls, name, a, b, _user_status=u, _internal_status=i)
         S, A = link("S", s_single, R, J0), link("A", s_a, J0, J1)
         B = link("B", s_b, J1, J0) if reverse_b else link("B", s_b, J0, J1)
         links = {"S": S, "A": A, "B": B}
@@ -146,6 +151,10 @@ def _init_graph_case(s_single, s_a, s_b, reverse_b):
 
 _init_cases = [_init_graph_case(s, a, b, rev) for s in ("open", "closed", "internally_closed", "active_valve")
                for a in ("open", "closed", "internally_closed", "active_valve") for b in ("open", "closed", "internally_closed")
+               for rev in (False, True)] + \
+              [_init_graph_case(s, a, b, rev) for (s, a, b) in (("running_head_pump", "closed", "closed"), ("running_power_pump", "open", "closed"),
+                                                                  ("pump_shut_by_the_simulator", "open", "open"), ("open", "running_head_pump", "closed"),
+                                                                  ("closed", "closed", "running_head_pump"), ("open", "running_power_pump", "internally_closed"))
                for rev in (False, True)]
 
 
@@ -173,10 +182,10 @@ class WnIso(NativeModel):
         return self._of(Pipe)
 
     def pumps(self):
-        return self._of(HeadPump)
+        return self._of(Pump)
 
     def valves(self):
-        return self._of(PRValve)
+        return self._of(Valve)
 
     def links(self):
         return list(self.links_.items())
